@@ -23,6 +23,9 @@ import weakref
 import queue as _queue
 
 
+PIPE_CAPACITY = 64      # messages a pipe direction holds before send() blocks
+
+
 class _WeakList(object):
     """list of weak references (handles must stay collectable)"""
 
@@ -256,6 +259,12 @@ class SimConn(object):
         k.yield_point("pipe.send")
         if not self._peer_reading():
             raise BrokenPipeError(32, "Broken pipe")
+        if len(self.wchan.inbox) >= PIPE_CAPACITY:
+            # the kernel buffer is full: send() blocks until the peer reads (or is gone)
+            self.net.stats["pipe_full"] = self.net.stats.get("pipe_full", 0) + 1
+            k.block_until(lambda: len(self.wchan.inbox) < PIPE_CAPACITY or not self._peer_reading(), "pipe.send(full)")
+            if not self._peer_reading():
+                raise BrokenPipeError(32, "Broken pipe")
         self.wchan.inbox.append(data)
         self.net.stats["pipe_send"] += 1
         k.yield_point("pipe.send.done")
